@@ -73,8 +73,76 @@ fn credential_status_grid() -> Result<(), String> {
   Ok(())
 }
 
+/// C05, bounded exhaustive + structured: junk at the base64 layer, the gzip layer and the list layer; an accepted list of any
+/// length (0 bytes, 1 byte, not a multiple of anything) answers get / set / len without a panic and get(len) is an error
+fn encoded_junk_never_panics() -> Result<(), String> {
+  use std::io::Write;
+  fn b64(b: &[u8]) -> String { identity_core::convert::BaseEncoding::encode(b, identity_core::convert::Base::Base64) }
+  fn gz(b: &[u8]) -> Vec<u8> { let mut e = flate2::write::GzEncoder::new(Vec::new(), flate2::Compression::best()); e.write_all(b).unwrap(); e.finish().unwrap() }
+  fn probe(what: String, text: String) -> Result<Option<usize>, String> {
+    let w2 = what.clone();
+    let r = catch_unwind(move || match StatusList2021::try_from_encoded_str(&text) {
+      Ok(mut l) => {
+        let n = l.len();
+        let mut bad = None;
+        for i in [0usize, 1, 7, 8, n.wrapping_sub(1), n, n + 1, usize::MAX] {
+          let g = l.get(i);
+          if g.is_ok() != (i < n) { bad = Some(format!("get({i}) on a list of {n} entries is {g:?}")); }
+          let st = l.set(i, true);
+          if st.is_ok() != (i < n) { bad = Some(format!("set({i}) on a list of {n} entries is {st:?}")); }
+          if i < n && l.get(i) != Ok(true) { bad = Some(format!("set({i}, true) then get is {:?}", l.get(i))); }
+        }
+        let again = StatusList2021::try_from_encoded_str(&l.clone().into_encoded_str());
+        if again.as_ref().ok() != Some(&l) { bad = Some("into_encoded_str / try_from_encoded_str does not give the list back".to_owned()); }
+        (Some(n), bad)
+      }
+      Err(e) => { let _ = e.to_string(); (None, None) }
+    }).map_err(|_| format!("StatusList2021 PANICS for {w2}"))?;
+    if let Some(b) = r.1 { return Err(format!("{what}: {b}")); }
+    Ok(r.0)
+  }
+  let mut n = 0u32;
+  let alphabet = ['H', '4', 's', 'I', 'A', '=', '-', '_', '+', '/', ' ', 'é'];
+  let mut cur: Vec<usize> = vec![];
+  loop {
+    let mut k = cur.len();
+    loop {
+      if k == 0 { cur = vec![0; cur.len() + 1]; break; }
+      k -= 1;
+      if cur[k] + 1 < alphabet.len() { cur[k] += 1; for j in k + 1..cur.len() { cur[j] = 0; } break; }
+    }
+    if cur.len() > 4 { break; }
+    let t: String = cur.iter().map(|&i| alphabet[i]).collect();
+    n += 1;
+    probe(format!("text {t:?}"), t)?;
+  }
+  probe("empty text".into(), String::new())?;
+  // every byte string of length <= 2 as the gzip stream, and as the content of a well-formed gzip stream
+  for len in 0..=2usize { for v in 0..(1u32 << (8 * len)) {
+    let bytes: Vec<u8> = (0..len).map(|i| (v >> (8 * i)) as u8).collect();
+    if len < 2 || v % 5 == 0 { probe(format!("gzip stream {bytes:?}"), b64(&bytes))?; }
+    if len < 2 || v % 5 == 0 { match probe(format!("list bytes {bytes:?}"), b64(&gz(&bytes)))? { Some(k) if k == 8 * len => {}, other => return Err(format!("list bytes {bytes:?} decoded to {other:?} entries")) } }
+    n += 1;
+  } }
+  // a genuine list: truncated and bit-flipped at the gzip layer and the text layer
+  let mut l = StatusList2021::default();
+  for i in [0usize, 9, 77, 131071] { l.set(i, true).map_err(|e| e.to_string())?; }
+  let enc = l.clone().into_encoded_str();
+  if probe("genuine".into(), enc.clone())? != Some(l.len()) { return Err("genuine list refused or resized".into()); }
+  let z = identity_core::convert::BaseEncoding::decode(&enc, identity_core::convert::Base::Base64).map_err(|e| e.to_string())?;
+  for cut in 0..z.len() { probe(format!("gzip stream cut at {cut}"), b64(&z[..cut]))?; n += 1; }
+  for i in 0..z.len() { for bit in 0..8 { let mut m = z.clone(); m[i] ^= 1 << bit; n += 1; probe(format!("gzip byte {i} bit {bit} flipped"), b64(&m))?; } }
+  for cut in 0..enc.len() { probe(format!("text cut at {cut}"), enc[..cut].to_owned())?; n += 1; }
+  for i in 0..enc.len() { for c in ['A', '/', '=', '-', '\u{e9}'] { let mut m: Vec<char> = enc.chars().collect(); m[i] = c; n += 1; probe(format!("text char {i} replaced by {c:?}"), m.into_iter().collect())?; } }
+  // trailing garbage after the gzip member, two members, wrong header flags
+  for extra in [&b"x"[..], &[0u8; 9][..], &z[..]] { let mut m = z.clone(); m.extend_from_slice(extra); n += 1; probe(format!("{} trailing bytes", extra.len()), b64(&m))?; }
+  if n < 20_000 { return Err(format!("only {n} inputs")); }
+  Ok(())
+}
+
 fn main() {
   std::panic::set_hook(Box::new(|_| {}));
+  w("sl_encoded_junk_never_panics", encoded_junk_never_panics);
   w("sl_credential_status_grid", credential_status_grid);
   w("sl_clear_keeps_neighbour", || {
     let mut l = StatusList2021::default();
